@@ -61,6 +61,18 @@ OPS2 = [
 ]
 
 
+OPS3 = [
+    ("swap", r"\br\.start\b", "r.end"), ("swap", r"\br\.end\b", "r.start"), ("swap", r"\brange\.start\b", "range.end"), ("swap", r"\brange\.end\b", "range.start"),
+    ("swap", r"\bweak_eq\(", "strong_eq("), ("swap", r"\bstrong_eq\(", "weak_eq("), ("swap", r"\bgzip_q\b", "identity_q"), ("swap", r"\bidentity_q\b", "gzip_q"), ("swap", r"\bstar_q\b", "gzip_q"),
+    ("swap", r"\bany_match\b", "none_match"), ("swap", r"\bprecondition_failed\b", "not_modified"), ("swap", r"\bnot_modified\b", "precondition_failed"),
+    ("swap", r"\bfirst\b", "end"), ("swap", r"\blast\b", "len"), ("swap", r"\blen - last\b", "last"), ("swap", r"\bd_len - remaining\b", "d_len"), ("swap", r"\bnew_rem\b", "d_len"),
+    ("swap", r"\bwriter_dropped\b", "true"), ("swap", r"\bdropping\b", "false"), ("swap", r"\bdropping\b", "true"), ("swap", r"\bbody_needed\b", "true"), ("swap", r"self\.should_gzip\b", "true"),
+    ("swap", r"\binclude_entity_headers_on_range\b", "true"), ("swap", r"\binclude_entity_headers\b", "true"), ("swap", r"\bis_gzipped\b", "auto_gzip"), ("swap", r"self\.auto_gzip\b", "true"),
+    ("swap", r"\bMethod::HEAD\b", "Method::GET"), ("swap", r"\bMethod::GET\b", "Method::HEAD"), ("swap", r"Some\(quality\)", "Some(1000)"), ("swap", r"\bthis\.remaining\b", "this.len"),
+    ("swap", r"\bcap\b", "n"), ("swap", r"&buf\[\.\.n\]", "buf"), ("swap", r"Ok\(n\)", "Ok(buf.len())"), ("swap", r"\bready_bytes\b", "0"),
+]
+
+
 def nontest_lines(path):
     src = open(path).read().split("\n")
     end = len(src)
@@ -115,6 +127,25 @@ def gen(ops=None, append=False):
     print(len(out), "mutants", {op: sum(1 for m in out if m["op"] == op) for op in sorted(set(m["op"] for m in out))})
 
 
+def _run(cmd, cwd, env, timeout):
+    """subprocess.run with a process group, so that test binaries a mutant sends into an endless loop die with the timeout."""
+    import signal
+    p = subprocess.Popen(cmd, cwd=cwd, env=env, stdout=subprocess.PIPE, stderr=subprocess.STDOUT, text=True, start_new_session=True)
+    try:
+        out, _ = p.communicate(timeout=timeout)
+        return p.returncode, out
+    except subprocess.TimeoutExpired:
+        try:
+            os.killpg(p.pid, signal.SIGKILL)
+        except Exception:
+            pass
+        try:
+            p.communicate(timeout=10)
+        except Exception:
+            pass
+        return None, ""
+
+
 def run_one(m):
     d = os.path.join(OUT, "w", m["id"])
     res = dict(m)
@@ -129,26 +160,22 @@ def run_one(m):
         open(p, "w").write("\n".join(src))
         env = dict(os.environ, CARGO_TARGET_DIR=os.path.join(OUT, "target-%s" % (int(m["id"][1:]) % NW)), CARGO_NET_OFFLINE="true")
         feats = ["--features", "dir"] if m["file"] == "src/dir.rs" else []
-        b = subprocess.run(["cargo", "test", "--offline", "--no-run"] + feats, cwd=d, env=env, stdout=subprocess.PIPE, stderr=subprocess.STDOUT, text=True, timeout=900)
-        if b.returncode != 0:
+        rc, _ = _run(["cargo", "test", "--offline", "--no-run"] + feats, d, env, 900)
+        if rc != 0:
             res["verdict"] = "nocompile"
             return res
-        try:
-            t = subprocess.run(["cargo", "test", "--offline", "--workspace"] + feats, cwd=d, env=env, stdout=subprocess.PIPE, stderr=subprocess.STDOUT, text=True, timeout=300)
-            if t.returncode != 0:
-                res["verdict"] = "suite"
-                return res
-        except subprocess.TimeoutExpired:
-            res["verdict"] = "suite"          # hangs the existing suite
+        rc, _ = _run(["cargo", "test", "--offline", "--workspace"] + feats, d, env, 240)
+        if rc != 0:
+            res["verdict"] = "suite"          # fails (or hangs) the existing suite
             return res
         rcs = {}
         for pid in FILE_PROPS[m["file"]]:
             try:
-                c = subprocess.run([os.path.join(V, "check"), pid, "--repo", d], cwd=V, stdout=subprocess.PIPE, stderr=subprocess.STDOUT, text=True, timeout=1500)
-                rcs[pid] = c.returncode
-                if c.returncode == 1:
-                    res.setdefault("first", [x for x in c.stdout.split("\n") if x.startswith("obligation failed")][:1])
-            except subprocess.TimeoutExpired:
+                rc, out = _run([os.path.join(V, "check"), pid, "--repo", d], V, dict(os.environ), 1500)
+                rcs[pid] = 2 if rc is None else rc
+                if rc == 1:
+                    res.setdefault("first", [x for x in out.split("\n") if x.startswith("obligation failed")][:1])
+            except Exception:
                 rcs[pid] = 2
         res["rcs"] = rcs
         res["verdict"] = "detected" if any(v == 1 for v in rcs.values()) else ("undecided" if any(v == 2 for v in rcs.values()) else "survived")
@@ -199,6 +226,8 @@ if __name__ == "__main__":
         gen()
     elif sys.argv[1] == "gen2":
         gen(OPS2, append=True)
+    elif sys.argv[1] == "gen3":
+        gen(OPS3, append=True)
     elif sys.argv[1] == "run":
         run(int(sys.argv[2]), int(sys.argv[3]) if len(sys.argv) > 3 and sys.argv[3].isdigit() else None, sys.argv[4] if len(sys.argv) > 4 else None)
     else:
